@@ -21,7 +21,7 @@ import random
 MODEL = 'refcount'
 
 KINDS = {'list': ('list', 'cont'), 'dict': ('dict', 'cont'), 'mem': ('MemoryBlock', 'mem'),
-         'value': ('Value', 'plain'), 'maker': ('Maker', 'plain'),
+         'value': ('Value', 'plain'), 'maker': ('Maker', 'plain'), 'board': ('Board', 'plain'),
          # a Value / a Namespace that is used to hold proxies: a hosted container like list and dict
          'cell': ('Value', 'cont'), 'ns': ('Namespace', 'cont')}
 KEYED = ('dict', 'cell', 'ns')
@@ -61,6 +61,8 @@ class Tracker:
         self.inner_of = {}             # inner incarnation ident -> maker ident
         self.inner_len = {}            # maker ident -> length of its inner list
         self.home = {}
+        self.boards = {}               # (server, name) -> ident of the Board the registered factory returns, while hosted
+        self.threaded = {'0'}          # clients that (may) have more than their main thread: they never fork
         self.n_ident = 0
         self.n_handle = 0
         self.n_token = 0
@@ -105,6 +107,9 @@ class Tracker:
             for i in sorted(self.alive):
                 if self.refcount(i) == 0:
                     self.alive.discard(i)
+                    for key, b in list(self.boards.items()):
+                        if b == i:
+                            self.boards[key] = None
                     if i in self.inner_of:
                         m = self.inner_of.pop(i)
                         self.inner[m] = None
@@ -156,8 +161,13 @@ def gen_case(rng: random.Random, tier: str, bias: str = ''):
     max_len = rng.choice([4, 8, 12]) if not big else rng.choice([12, 30, 60])
     # two independent manager servers A and B in half of the cases: objects are created on either, and a proxy
     # of an object hosted by one server may be stored in a container hosted by the other
-    two = bias == 'two' or (bias != 'one' and rng.random() < 0.5)
+    two = bias == 'two' or (bias not in ('one', 'authkey') and rng.random() < 0.5)
     servers = ['A', 'B'] if two else ['A']
+    # a manager with an explicit authkey that differs from the processes' own key (single manager only: a process
+    # needs a server's key to talk to it, and pickles of proxies carry it only while a child is being spawned — so
+    # these histories pass proxies to spawned/forked children, nest them and take them out again, but do not send
+    # pickles through pipes or queues)
+    akey = bias == 'authkey' or (not two and bias != 'one' and rng.random() < 0.25)
 
     batch = []          # [None] = off; a list = collecting sub-operations of a concurrent step
 
@@ -203,6 +213,9 @@ def gen_case(rng: random.Random, tier: str, bias: str = ''):
         macros += unp
         hold = rng.random() < 0.5
         T.hold[q] = hold
+        if proc_cls == 'mpservice':
+            T.threaded.add(parent)         # mpservice's Process starts helper threads in the parent
+            T.threaded.add(q)              # … and may start a log-forwarding thread in the child
         emit('spawn', parent, ['spawn', q, pairs, proc_cls, hold, drop], macros)
         return q
 
@@ -267,6 +280,7 @@ def gen_case(rng: random.Random, tier: str, bias: str = ''):
             return False
         p, h, i = c
         T.queued.append(i)
+        T.threaded.add(p)                  # the queue's feeder thread
         emit('qput', p, ['qput', h], [f'pickle {p} {i}'])
         return True
 
@@ -288,6 +302,41 @@ def gen_case(rng: random.Random, tier: str, bias: str = ''):
             return False
         rng.shuffle(hs)
         spawn(p, hs[:rng.choice([1, 1, 2, 3])])
+        return True
+
+    def op_fork():
+        """a single-threaded client starts a child with the FORK start method: the child inherits every proxy of its
+        parent through memory (no pickling); the after-fork hook makes each copy a counted reference of its own"""
+        if T.n_client >= (5 if not big else 8):
+            return False
+        cands = [p for p in running() if p not in T.threaded and T.handles[p]]
+        if not cands:
+            return False
+        p = rng.choice(cands)
+        q = str(T.n_client)
+        T.n_client += 1
+        T.handles[q] = dict(T.handles[p])
+        T.parent[q] = p
+        T.hold[q] = True
+        emit('fork', p, ['fork', q], [f'fork {p} {q} {i}' for i in T.handles[p].values()])
+        return True
+
+    def op_board():
+        """a typeid registered with a CALLABLE that returns an object which may be hosted already (get-or-create by
+        name): called again while an earlier proxy is alive it must add a reference, not start a new count"""
+        p = rng.choice(running())
+        srv = rng.choice(servers)
+        name = rng.choice(['x', 'y'])
+        cur = T.boards.get((srv, name))
+        if cur is not None and cur in T.alive:
+            h = add_handle(p, cur)
+            emit('board', p, ['create', 'Board', [name], h, srv], [f'manage {p} {cur}'], new=[[h, cur, 'plain']])
+            steps[-1]['again'] = True
+        else:
+            i = T.new_ident('board', srv)
+            T.boards[(srv, name)] = i
+            h = add_handle(p, i)
+            emit('board', p, ['create', 'Board', [name], h, srv], [f'create {p} plain {i}'], new=[[h, i, 'plain']])
         return True
 
     def op_delete():
@@ -539,7 +588,7 @@ def gen_case(rng: random.Random, tier: str, bias: str = ''):
         try:
             for p in who[:rng.choice([2, 3])]:
                 mine = [(h, i) for pp, h, i in T.live_handles() if pp == p]
-                kind = rng.choice(['create', 'delete', 'pickle', 'unpickle'])
+                kind = rng.choice(['create', 'delete', 'pickle', 'unpickle'] if not akey else ['create', 'delete'])
                 if kind == 'delete' and mine:
                     h, i = rng.choice(mine)
                     del T.handles[p][h]
@@ -595,11 +644,12 @@ def gen_case(rng: random.Random, tier: str, bias: str = ''):
         emit('call', p, ['nop'], [f'call {p} {i}'])
         return True
 
-    ops = [(op_create, 5), (op_pickle, 3), (op_unpickle, 4), (op_spawn, 3 if bias != 'nospawn' else 0),
+    nopk = 0 if akey else 1
+    ops = [(op_create, 5), (op_pickle, 3 * nopk), (op_unpickle, 4 * nopk), (op_spawn, 3 if bias != 'nospawn' else 0),
            (op_delete, 4), (op_store, 4), (op_storeplain, 1), (lambda: op_take('pop'), 3),
            (lambda: op_take('del'), 2), (lambda: op_take('get'), 3), (op_clear, 1), (op_managed, 7),
            (op_exit, 2), (op_call, 1), (op_pass, 3), (op_readall, 2), (op_extend, 1), (op_par, 3),
-           (op_qput, 2), (op_qget, 3), (op_cross, 7 if two else 0)]
+           (op_qput, 2 * nopk), (op_qget, 3 * nopk), (op_cross, 7 if two else 0), (op_fork, 3), (op_board, 4)]
     # every history starts with something to refer to
     op_create()
     n = 1
@@ -636,6 +686,7 @@ def gen_case(rng: random.Random, tier: str, bias: str = ''):
             i = T.handles['0'].pop(h)
             emit('delete', '0', ['delete', h], [f'delete 0 {i}'], probe=False)
     return dict(kind='refcount', proc_cls=proc_cls, steps=steps, winddown=winddown, n_ops=n, two_servers=two,
+                authkey='abc' if akey else None,
                 home={str(i): srv for i, srv in T.home.items()},
                 kindclass={str(i): KINDS[k][1] for i, k in T.kind.items()},
                 n_clients=T.n_client, n_idents=T.n_ident, settle=3.0 if not big else 6.0,
@@ -655,6 +706,16 @@ def _shape(case):
         nested_release=('store' in ops or 'extend' in ops) and case['winddown'] and case['n_idents'] >= 3,
         transit_only='pickle' in ops and 'unpickle' in ops and 'delete' in ops,
         view_again=ops.count('managed:inner') >= 2,
+        # a registered callable returning an already hosted object a second time; then both proxies go
+        factory_again=any(st.get('again') for st in case['steps']) and case['winddown'],
+        factory_again_child_exit=_then(case, lambda st: st.get('again') and st['who'] != '0', lambda st: st['op'] == 'exit'),
+        # fork: inherited proxies (incl. a memory block) given back when the forked child exits
+        fork_exit=_then(case, lambda st: st['op'] == 'fork', lambda st: st['op'] == 'exit') and case['winddown'],
+        fork_mem=any(st['op'] == 'fork' and any(case['kindclass'].get(m.split()[3]) == 'mem' for m in st['macros'])
+                     for st in case['steps']) and case['winddown'],
+        # explicit authkey: nested proxy read back / taken out again
+        authkey_nested=bool(case.get('authkey')) and _then(case, lambda st: st['op'] in ('store', 'extend'),
+                                                          lambda st: st['op'] in ('get', 'pop', 'readall')),
         # two manager servers: a proxy of an A-object inside a B-container (and the other way round), later taken
         # out / dropped with its container / given back at wind-down
         cross_a_in_b=any(st.get('cross') == ['A', 'B'] for st in case['steps']) and case['winddown'],
@@ -669,6 +730,16 @@ def KINDS_OF(case, st):
     # kind class of the object whose proxy a cross-server store put away (from its macro `store p c i`)
     i = st['macros'][0].split()[3]
     return case.get('kindclass', {}).get(i)
+
+
+def _then(case, first, second):
+    seen = False
+    for st in case['steps']:
+        if seen and second(st):
+            return True
+        if first(st):
+            seen = True
+    return False
 
 
 def _cross_then(case, ops):
